@@ -44,8 +44,8 @@ G0(cfg) == [bound  |-> [c \in Clients(cfg) |-> NoRec],
 Unexpired(cfg, g, c) == g.bound[c].ip # None /\ g.bound[c].t < cfg.leaseticks
 OfferLive(cfg, g, c) == g.offer[c].ip # None /\ g.offer[c].t < cfg.leaseticks
 
-IsReq(op)  == op \in {"REQSEL", "REQOWN", "REQ"}
-IsDisc(op) == op = "DISC"
+IsReq(op)  == op \in {"REQSEL", "REQOWN", "REQ", "REQSELALT"}
+IsDisc(op) == op \in {"DISC", "DISCALT"}
 Gives(e)   == e.rtype \in {"OFFER", "ACK"} /\ (IsReq(e.op) \/ IsDisc(e.op))
 
 \* e = [op, c, u, rtype, runit, req, skipped]
@@ -69,7 +69,7 @@ Step(cfg, g, e) ==
          [g EXCEPT !.offer[c] = [ip |-> e.runit, t |-> 0], !.sticky[c] = @ \cup {e.runit}]
     [] IsReq(e.op) /\ e.rtype = "ACK" ->
          [g EXCEPT !.bound[c] = [ip |-> e.runit, t |-> 0], !.offer[c] = NoRec, !.sticky[c] = @ \ {e.runit}]
-    [] e.op = "REL" ->   \* ends the binding; an offer of that same address is withdrawn with it
+    [] e.op \in {"REL", "RELDIRECT"} ->   \* ends the binding; an offer of that same address is withdrawn with it
          [g EXCEPT !.bound[c] = NoRec, !.sticky[c] = @ \ {g.bound[c].ip},
                    !.offer[c] = IF g.offer[c].ip = g.bound[c].ip THEN NoRec ELSE @]
     [] e.op \in {"DECL", "DECLU"} ->   \* a DECLINE counts only for the address the client is bound to
